@@ -124,6 +124,24 @@ def shard_files(acc, prop="C10", seed=0, shard=0, n=50):
                                           f"{nroots} objects x {k}: got {g[:4]}..., expected {w[:4]}...",
                                           {"kind": "file", "lines": lines, "k": k, "nroots": nroots, "label": lab})
                             break
+                    # the whole composite object moves (root mode after a mode switch): every one of its point masses is
+                    # active, each needs exactly the index sets that contain it, a set shared by two of them only once
+                    root = Node(Unit(identifier=(r,), position=[0.1] * 3, velocity=[1.0, 0, 0]), weight=1)
+                    for a in range(k):
+                        root.add_child(Node(Unit(identifier=(r, a), position=[0.1] * 3, velocity=[1.0, 0, 0]), weight=1 / k))
+                    got = list(tagger.yield_identifiers_send_event_time([root]))
+                    want = set()
+                    for a in range(k):
+                        want.update(tuple(sorted(x)) for x in expected_in_states(local, sets, k, nroots, (r, a)))
+                    acc.count("root_mode_active_objects_checked")
+                    g = sorted(tuple(sorted(x)) for x in got)
+                    if g != sorted(want):
+                        acc.violation("C10:factor-file-in-states",
+                                      f"factor '{lab}' ({'intra' if local else 'inter'}) file {lines}: ALL point masses of object "
+                                      f"{r} active ({nroots} objects x {k}): got {g[:4]}... ({len(g)}), expected "
+                                      f"{sorted(want)[:4]}... ({len(want)})",
+                                      {"kind": "file", "lines": lines, "k": k, "nroots": nroots, "label": lab, "root_mode": True})
+                        break
     finally:
         shutil.rmtree(wd, ignore_errors=True)
         setting.reset()
